@@ -6,7 +6,7 @@
    sections of extras/trafficlogger/http.go, so "for all operation sequences" below is "for all
    interleavings of LogTraffic, LogOnlineState, GET /traffic (with and without clear),
    POST /kick and GET /online".  No bound on lengths, ids or byte counts. *)
-From Hy Require Import lib.Lin model.C15_Stats proof.C15_Stats.
+From Hy Require Import lib.Lin model.C15_Stats proof.C15_Stats model.C15_Sites proof.C15_Sites.
 From Coq Require Import ZArith Permutation.
 Local Open Scope N_scope.
 
@@ -150,3 +150,93 @@ Theorem C15_lin_search_complete : forall (sp : spec) budget (h : list (event (Op
   ~ exists l, Permutation l h /\ rt_ok sp l /\ seq_ok sp (init sp) l = true.
 Proof. exact lin_search_complete. Qed.
 Print Assumptions C15_lin_search_complete.
+
+(* ---------- the report sites of core/server: "POST /kick ... which disconnects them" ----------
+   model/C15_Sites.v: the stats object plus the authenticated QUIC connections of the hysteria
+   server, and the code that follows each of the four LogTraffic call sites (TCP upload, TCP
+   download, UDP upload = udpIOImpl.ReceiveMessage, UDP download = udpIOImpl.SendMessage). *)
+
+(* At every one of the four sites a refused report closes the QUIC connection (for the two TCP
+   sites: when this direction's errDisconnect is the first value to reach copyTwoWayEx's channel;
+   the other case is the open finding recorded for C06), an accepted one never does. *)
+Theorem C15_refused_report_closes_at_every_site : forall st ok other,
+  (is_tcp st = true -> other = false) ->
+  (site_action st ok other = CloseConn <-> ok = false).
+Proof.
+  intros st ok other H. split; [apply site_closes_only_refused|].
+  intros ->. apply site_refused_closes. exact H.
+Qed.
+Print Assumptions C15_refused_report_closes_at_every_site.
+
+(* A report made on an open connection is refused iff a kick of its user is pending ... *)
+Theorem C15_report_result : forall secret w slot st n other c,
+  nth_error (conns w) slot = Some c -> c_open c = true ->
+  snd (wstep secret w (EReport slot st n other)) = WBool (negb (mem (c_id c) (kick (logger w)))).
+Proof. exact report_result. Qed.
+Print Assumptions C15_report_result.
+
+(* ... a refused one closes exactly that connection (same user, still to be reported offline),
+   leaves every other connection alone, adds no bytes, touches no online count and consumes
+   the kick ... *)
+Theorem C15_refused_report_disconnects : forall secret w slot st n other c w',
+  nth_error (conns w) slot = Some c -> c_open c = true ->
+  (is_tcp st = true -> other = false) ->
+  wstep secret w (EReport slot st n other) = (w', WBool false) ->
+  conns w' = upd slot close_conn (conns w) /\
+  stats (logger w') = stats (logger w) /\ online (logger w') = online (logger w) /\
+  mem (c_id c) (kick (logger w)) = true /\ mem (c_id c) (kick (logger w')) = false.
+Proof. exact report_refused. Qed.
+Print Assumptions C15_refused_report_disconnects.
+
+(* ... an accepted one closes nothing, and a closed connection reports nothing any more. *)
+Theorem C15_accepted_report_keeps_connections : forall secret w slot st n other w',
+  wstep secret w (EReport slot st n other) = (w', WBool true) -> conns w' = conns w.
+Proof. exact report_accepted. Qed.
+Print Assumptions C15_accepted_report_keeps_connections.
+
+Theorem C15_closed_connection_reports_nothing : forall secret w slot st n other c,
+  nth_error (conns w) slot = Some c -> c_open c = false ->
+  wstep secret w (EReport slot st n other) = (w, WNone).
+Proof. exact closed_reports_nothing. Qed.
+Print Assumptions C15_closed_connection_reports_nothing.
+
+(* Census, for every sequence of server events (authentications, reports at any site, client
+   closes, handler returns, API requests): GET /online lists for every user exactly the
+   connections whose handler has not yet returned; that is never less than the user's open
+   connections and, once the handlers of all closed connections have returned, exactly them. *)
+Theorem C15_census : forall secret evs i,
+  (Z.of_nat (List.length evs) < P63)%Z ->
+  let w := wrun secret init_world evs in
+  let c := nlisted i (conns w) in
+  (0 <= c)%Z /\ get i (online (logger w)) = (if (c =? 0)%Z then None else Some c) /\
+  snd (wstep secret w (EHttp (mkReq secret "GET" "/online" "" None))) =
+    WHttp StatusOK (BOnline (online (logger w))) /\
+  (nopen i (conns w) <= c)%Z /\ (quiescent (conns w) -> c = nopen i (conns w)).
+Proof. exact census. Qed.
+Print Assumptions C15_census.
+
+(* Kick disconnects, end to end: in any reachable world, if a kick of a user is pending, that
+   user's next report - at whichever site, on whichever of its open connections - is refused,
+   that connection is closed and reports nothing any more, its handler returns, and then the user
+   has one open connection less, GET /online shows one less (no entry at zero), the kick is used
+   up, no byte was added and every other connection is as it was. *)
+Theorem C15_kick_disconnects : forall secret evs slot c st n other,
+  (Z.of_nat (List.length evs) + 2 < P63)%Z ->
+  let w := wrun secret init_world evs in
+  nth_error (conns w) slot = Some c -> c_open c = true ->
+  mem (c_id c) (kick (logger w)) = true ->
+  (is_tcp st = true -> other = false) ->
+  let i := c_id c in
+  let w1 := fst (wstep secret w (EReport slot st n other)) in
+  let w2 := fst (wstep secret w1 (EHandlerReturn slot)) in
+  snd (wstep secret w (EReport slot st n other)) = WBool false /\
+  is_open slot w1 = false /\
+  wstep secret w1 (EReport slot st n other) = (w1, WNone) /\
+  snd (wstep secret w1 (EHandlerReturn slot)) = WUnit /\
+  nopen i (conns w2) = (nopen i (conns w) - 1)%Z /\
+  (let k := (nlisted i (conns w) - 1)%Z in
+   (0 <= k)%Z /\ get i (online (logger w2)) = (if (k =? 0)%Z then None else Some k)) /\
+  mem i (kick (logger w2)) = false /\ stats (logger w2) = stats (logger w) /\
+  (forall j, j <> slot -> nth_error (conns w2) j = nth_error (conns w) j).
+Proof. exact kick_disconnects. Qed.
+Print Assumptions C15_kick_disconnects.
